@@ -28,7 +28,7 @@ def run(ctx):
     res = ctx.run_harness(h, ["parsedir"], cases, timeout_s=1800)
     ctx.tally(res, cases_path=cases)
     ctx.exhaustive = True
-    ctx.rule = ("every directory of up to MaxEntries distinct names (prefix {a, _a, gop_autogen, main} x "
+    ctx.rule = ("every directory of up to MaxEntries distinct names (prefix {a, _a, main, gop_autogen, gop_autogen_x, gop_autogenx, gop_autogen_x_test} x "
                 "extension part {.xgo .gop .go .gox .spx .gmx .gsh .txt _yap.gox}) x kind {sub-directory, file with "
                 "package main / foo / no clause} x class-kind function (7 representatives incl. nil) x mode "
                 "{0, ParseGoAsGoPlus} x filter {nil, reject entry j}, per cfg; each is parsed with the sorted and "
